@@ -55,6 +55,9 @@ def diff_streams(rep, prop, cfg, tier, seed, binary, workdir, kf):
             if only and kind not in only:
                 continue
             m = lib.canon_model(m)
+            if m.startswith('okif '):
+                # conditional model answer: "IF the third-party validators accept the opaque bodies THEN this value"
+                m = i if i == 'err' else 'ok ' + m[5:]
             rep.case(o, nontrivial=cfg.get('nontrivial', lambda o, i: True)(o, i))
             if len(rep.samples) < 4 and kind in oracle_ops:
                 rep.sample(f'{o}  =>  impl: {i}')
@@ -129,6 +132,8 @@ def run_diff_property(prop, cfg, tier, seed, replay=None):
             lib.run_driver(f'{workdir}/replay.ops', f'{workdir}/replay.model')
             i = open(f'{workdir}/replay.impl').read().strip()
             m = lib.canon_model(open(f'{workdir}/replay.model').read().strip())
+            if m.startswith('okif '):
+                m = i if i == 'err' else 'ok ' + m[5:]
             print('op      :', r['op'][:400])
             print('impl    :', i[:400])
             print('expected:', m[:400])
